@@ -1242,6 +1242,11 @@ class Engine:
             return Obj(self.uf('attr_' + b.name, V, V)(self.to_V(b.recv)), taint=b.recv.taint)
         return b
 
+    def ev_Slice(self, st, e):
+        k = Tup([self.ev(st, x) if x is not None else Const(None) for x in (e.lower, e.upper, e.step)])
+        k.kind = 'slice'
+        return k
+
     def ev_Subscript(self, st, e):
         o = self.ev(st, e.value)
         if isinstance(o, Bound):
